@@ -206,3 +206,10 @@ def r4(ctx):
                       expected="numpy.linalg.slogdet(Theta)[1]", found=how)
     if not found:
         raise AnalysisError("log-determinant consumer not found in the BIC term")
+
+
+@rule("C16", "R5", "FLOW", "Theta_k and S_k in the BIC come from one state: the one the last round fitted and relabelled")
+def r5(ctx):
+    from . import c09
+    c09.r4(ctx)   # the state read by the metrics is the last relabel's
+    c09.r1(ctx)   # no phase (statistics refresh included) runs outside the round loop
